@@ -20,6 +20,7 @@ import subprocess
 import xml.dom.minidom
 import zipfile
 
+from sim.runner import H
 from sim import child, gen
 
 ID = 'C20'
@@ -49,9 +50,12 @@ PDIR = '/sim/p'
 OUT = '/sim/out'
 MN_POOL = ['nop', 'ld', 'ld.b', 'ldx', 'ldi', 'st', 'st.w', 'add', 'addc', 'jmp', 'j', 'mov', 'mov.w', 'inc', 'hlt',
            'call', 'ret', 'sta', 'b_2', 'cmp', 'out', 'in', 'push', 'pop', 'swap', 'jz', 'jnz', 'l', 'ld.bx', 'a.b',
-           'x1', 'mov2', 'ADD2', 'Sub']
-MACRO_POOL = ['push2', 'ldw', 'mov3', 'inc2', 'clr', 'jsr', 'ldq.w', 'pushx', 'po', 'jmp.far', 'cl', 'Clr2']
-REG_POOL = ['a', 'b', 'x', 'ab', 'sp', 'a1', 'ix', 'mar', 'r0', 'r1', 'hl', 'h', 'r10', 'A2', 'abx']
+           'x1', 'mov2', 'ADD2', 'Sub', '_nop', 'st_', 'ld_x', 'j_']
+MACRO_POOL = ['push2', 'ldw', 'mov3', 'inc2', 'clr', 'jsr', 'ldq.w', 'pushx', 'po', 'jmp.far', 'cl', 'Clr2', '_save',
+              'rest_', 'm_x']
+REG_POOL = ['a', 'b', 'x', 'ab', 'sp', 'a1', 'ix', 'mar', 'r0', 'r1', 'hl', 'h', 'r10', 'A2', 'abx', '_r', 'r_', 'x_1']
+DESCRIPTIONS = ['vocab ISA', 'A CPU: the "best" one', 'line one\nline two: with colon\n# not a comment', 'tabs\tand \'quotes\'',
+                'multi\n\nparagraph\n', '', 'x' * 90, 'key: value', '- list item', '%YAML in text', '{braces} [brackets]']
 INSTR_SCOPE = 'variable.function.instruction'
 MACRO_SCOPE = 'variable.function.macro'
 REG_SCOPE = 'variable.language.register'
@@ -96,7 +100,7 @@ def gen_vocab_isa(rnd):
             cfg = {'bytecode': {'value': i % 32, 'size': 5},
                    'operands': {'count': 1, 'operand_sets': {'list': ['regs']}}}
         instructions[m] = cfg
-    isa = {'description': 'vocab ISA', 'general': general, 'operand_sets': opsets, 'instructions': instructions}
+    isa = {'description': rnd.choice(DESCRIPTIONS), 'general': general, 'operand_sets': opsets, 'instructions': instructions}
     if macros:
         first = mn[0]
         body = [first] if 'operands' not in instructions[first] else [
@@ -226,7 +230,7 @@ def classify(rules, text, pos=0):
 def near_misses(word, vocab_lower):
     out = []
     for cand in (word + 'q', 'q' + word, word[:-1], word.replace('.', 'x') if '.' in word else None,
-                 word + '_', word + '9'):
+                 word + '_', word + '9', 'do' + word, word + 'x1', 'my_' + word, word + '_2'):
         if not cand or '.' in cand or cand.lower() in vocab_lower or not re.match(r'^[A-Za-z_]\w*$', cand):
             continue
         out.append(cand)
@@ -391,7 +395,7 @@ def check_outputs(files, case, isa):
 
 def xproc_generate(case, hashseed):
     """real interpreter, real FS"""
-    base = f'/dev/shm/verif_c20_{os.getpid()}_{abs(hash(json.dumps(case["isa"], sort_keys=True))) % 100000}'
+    base = f'/dev/shm/verif_c20_{os.getpid()}_{abs(H(json.dumps(case["isa"], sort_keys=True))) % 100000}'
     if not os.path.isdir('/dev/shm'):
         base = os.path.join(os.environ.get('TMPDIR', '/tmp'), os.path.basename(base))
     isa = effective_isa(case)
@@ -405,7 +409,8 @@ def xproc_generate(case, hashseed):
         env = {'PYTHONHASHSEED': str(hashseed), 'PYTHONPATH': child.REPO_SRC, 'PYTHONDONTWRITEBYTECODE': '1',
                'HOME': base + '/home', 'PATH': '/usr/bin:/bin', 'LANG': 'C.UTF-8', 'TMPDIR': base + '/tmp'}
         cp = subprocess.run([py, '-m', 'bespokeasm', 'generate-extension', case['target'], '-c', 'isa.json', '-d',
-                             base + '/out'], cwd=base, env=env, capture_output=True, timeout=120)
+                             base + '/out'] + list(case.get('opts', [])), cwd=base, env=env, capture_output=True,
+                            timeout=120)
         files = {}
         for dp, dn, fn in os.walk(base + '/out'):
             for n in fn:
@@ -453,7 +458,7 @@ def check_case(case):
 
 
 def shrink_paths(case):
-    return [('instr_keep',), ('macro_keep',)]
+    return [('instr_keep',), ('macro_keep',), ('opts',)]
 
 
 def cross_class_dotted_prefix(word, scope_got, text_got, vocab):
@@ -514,9 +519,16 @@ def gen_sched(rnd):
 def alternation_orders(files):
     """digest of the alternation order of every (?:a|b|c) group in the generated grammar (schedule coverage)"""
     orders = []
-    for p, c in files.items():
-        if p.endswith('tmGrammar.json') or p.endswith('.sublime-package'):
-            orders.append(hash(c) & 0xFFFFFFFF)
+    for p, c in sorted(files.items()):
+        if p.endswith('tmGrammar.json'):
+            orders.append(H(c) & 0xFFFFFFFF)
+        elif p.endswith('.sublime-package'):
+            try:
+                zf = zipfile.ZipFile(io.BytesIO(c.encode('latin-1')))
+                # member order and contents, not timestamps (real ones in the cross-process tier)
+                orders.append(H([(i.filename, i.CRC) for i in zf.infolist()]) & 0xFFFFFFFF)
+            except Exception:
+                orders.append(0)
     return tuple(orders)
 
 
@@ -528,8 +540,14 @@ def explore(subseed, cfg):
     isa = gen_vocab_isa(rnd)
     vocab = vocab_of(isa)
     base = {'isa': isa, 'instr_keep': list(isa['instructions']), 'macro_keep': list(isa.get('macros', {})),
-            'fmt': rnd.choice(['json', 'yaml'])}
-    vd = hash(json.dumps(isa, sort_keys=True)) & 0xFFFFFFFF
+            'fmt': rnd.choice(['json', 'yaml']), 'opts': []}
+    # command-line options of the generator are part of the configuration space
+    base['opts'] += ['-v'] * rnd.choice([0, 0, 1, 2, 3, 4])
+    if rnd.random() < 0.2:
+        base['opts'] += ['-x', rnd.choice(['asm', 's', 'a51'])]
+    if rnd.random() < 0.15:
+        base['opts'] += ['-k', rnd.choice(['9.9.9', '0.0.1-rc1'])]
+    vd = H(json.dumps(isa, sort_keys=True)) & 0xFFFFFFFF
     if any('.' in m for m in vocab['instructions'] + vocab['macros']):
         pr['mnemonic_with_dot'] = 1
     if any(a != b and b.startswith(a) for a in vocab['registers'] for b in vocab['registers']):
@@ -564,7 +582,7 @@ def explore(subseed, cfg):
             for vv in res['violations']:
                 out['violations'].append({'case': c, 'class': vv, 'group': target})
             if s and (max(len(x) for x in vocab.values()) >= 2):
-                out['distinct'].add(hash((vd, target, alternation_orders(r['files']))) & 0xFFFFFFFFFFFF)
+                out['distinct'].add(H((vd, target, alternation_orders(r['files']))) & 0xFFFFFFFFFFFF)
             # probe: was `if` emitted before `ifdef` in this run?
             for p, ctext in r['files'].items():
                 if p.endswith('tmGrammar.json'):
@@ -586,7 +604,7 @@ def explore(subseed, cfg):
                 pr['xproc_runs'] = pr.get('xproc_runs', 0) + 1
                 for vv in res['violations']:
                     out['violations'].append({'case': c, 'class': vv, 'group': target + ':xproc'})
-                out['distinct'].add(hash((vd, target, 'hs', alternation_orders(res.get('files', {})))) & 0xFFFFFFFFFFFF)
+                out['distinct'].add(H((vd, target, 'hs', alternation_orders(res.get('files', {})))) & 0xFFFFFFFFFFFF)
     if not out['samples']:
         out['samples'].append({'subseed': subseed, 'vocabulary': vocab, 'example_schedule': gen_sched(random.Random(2)),
                                'argv': build_world(dict(base, target='vscode'))['argv']})
